@@ -113,7 +113,11 @@ class LinDom(alg.Alg):
             self.maybe_null.add(b)
             return Ptr(b, 0)
         nm = self.names.get((base, off)) or '%s[%s]' % (base, self.off_key(off))
-        return self.sym(nm, integer=True, nonnegative=True)
+        v = self.sym(nm, integer=True, nonnegative=True)
+        if not hasattr(self, 'loaded'):
+            self.loaded = {}
+        self.loaded[v] = (base, off)      # where an entry value was read from (rules that tie a tested byte to its position)
+        return v
 
     # effects
     def call(self, name, args, ins, interp, st, fn):
@@ -157,6 +161,9 @@ class LinDom(alg.Alg):
                 self.nfresh += 1
                 b = 'memchr%d' % self.nfresh
                 self.maybe_null.add(b)
+                if not hasattr(self, 'memchr_args'):
+                    self.memchr_args = {}
+                self.memchr_args[b] = tuple(args[:3])
                 return Ptr(b, 0)
             return args[0]
         if name in self.summaries:
